@@ -19,7 +19,7 @@ from .core import Relation, err_kind
 from .c07 import ALPH, Enc, build_obj, dump_obj, oerr
 
 PROP = "C08"
-CLAIMED = False
+CLAIMED = True
 COQ_MODULES = ["C08_Check", "C08_Proofs"]
 PROPERTY_MODULE = "C08_Property"
 ALLOWED_AXIOMS = []
